@@ -441,3 +441,133 @@ int shim_array_foreach_count(const cJSON *a, uintptr_t *out, size_t cap)
     }
     return (int)n;
 }
+
+/* ------------------------------------------------------------------ */
+/* C03 (c): all token sequences up to a length bound.  The recogniser decides the verdict. */
+static const char *const TOKENS[] = {"[", "]", "{", "}", ",", ":", "\"k\"", "1", "true", "null", "-"};
+#define NTOKENS 11
+
+int sweep_token_count(void) { return NTOKENS; }
+
+/* builds the text of sequence `code` (base-NTOKENS digits, most significant first, `len` tokens) */
+size_t token_text(uint64_t code, int len, char *out)
+{
+    int digits[16];
+    int i;
+    size_t n = 0;
+    for (i = len - 1; i >= 0; i--)
+    {
+        digits[i] = (int)(code % NTOKENS);
+        code /= NTOKENS;
+    }
+    for (i = 0; i < len; i++)
+    {
+        size_t l = strlen(TOKENS[digits[i]]);
+        memcpy(out + n, TOKENS[digits[i]], l);
+        n += l;
+    }
+    out[n] = '\0';
+    return n;
+}
+
+/* returns 0 ok; else failure code: 1 invalid accepted, 2 strict rejected, 3 leak, 4 structure */
+static int token_case(const char *text, size_t n, int limit, int *cls_out, size_t *bad_out, uint64_t *parses)
+{
+    ref_result_t rc;
+    int v;
+    ref_classify((const unsigned char *)text, n, limit, &rc);
+    *cls_out = rc.cls;
+    *bad_out = rc.bad_offset;
+    for (v = 0; v < 4; v++)
+    {
+        parse_out_t po;
+        uint64_t live = ledger_live();
+        const char *why;
+        /* v0: length exact; v1: string variant; v2: length+terminator, termination required; v3: string, with end */
+        switch (v)
+        {
+            case 0: shim_parse(2, (const unsigned char *)text, n, 0, 0, 0, &po); break;
+            case 1: shim_parse(0, (const unsigned char *)text, n + 1, 1, 0, 0, &po); break;
+            case 2: shim_parse(3, (const unsigned char *)text, n + 1, 0, 1, 1, &po); break;
+            default: shim_parse(1, (const unsigned char *)text, n + 1, 0, 0, 1, &po); break;
+        }
+        (*parses)++;
+        if (po.tree != NULL)
+        {
+            if (rc.cls == RC_INVALID)
+            {
+                cJSON_Delete(po.tree);
+                return 1;
+            }
+            if (!tree_ok(po.tree, live, &why))
+            {
+                return 4;
+            }
+        }
+        else
+        {
+            if (rc.cls == RC_STRICT && v != 2)
+            {
+                return 2;
+            }
+            if (ledger_live() != live)
+            {
+                return 3;
+            }
+        }
+    }
+    return 0;
+}
+
+void sweep_tokens(int maxlen, int part, int nparts, int limit, sweep_out_t *o)
+{
+    int len;
+    uint64_t counter = 0;
+    char text[128];
+    memset(o, 0, sizeof(*o));
+    for (len = 1; len <= maxlen && o->code == 0; len++)
+    {
+        uint64_t total = 1, code;
+        int i;
+        for (i = 0; i < len; i++)
+        {
+            total *= NTOKENS;
+        }
+        for (code = 0; code < total && o->code == 0; code++, counter++)
+        {
+            size_t n;
+            int cls = 0, r;
+            size_t bad = 0;
+            if ((int)(counter % (uint64_t)nparts) != part)
+            {
+                continue;
+            }
+            n = token_text(code, len, text);
+            r = token_case(text, n, limit, &cls, &bad, &o->iterations);
+            if (cls == RC_INVALID && bad >= 1)
+            {
+                o->nontrivial++;
+            }
+            if (cls != RC_INVALID)
+            {
+                o->accepted++;
+            }
+            if (r != 0)
+            {
+                static const char *const why[] = {"", "token sequence outside the dialect was accepted", "strict token sequence was rejected",
+                                                  "rejected token sequence left allocations behind", "accepted token sequence gives an unusable tree"};
+                fail(o, r, (long)code, len, cls, why[r]);
+            }
+        }
+    }
+}
+
+int token_case_replay(uint64_t code, int len, int limit)
+{
+    char text[128];
+    int cls;
+    size_t bad;
+    uint64_t parses = 0;
+    size_t n = token_text(code, len, text);
+    return token_case(text, n, limit, &cls, &bad, &parses);
+}
